@@ -183,18 +183,19 @@ PROPS = {
         ],
     },
     "C16": {
-        "statement": "PS.run_once, PS.seq_order(_nested) / PS.seqOf_order, PS.par_may_overlap, PS.reads_union / PS.writes_union, PS.setup_reaches, PS.with_check_iff / PS.parOf_spec (+ PS.built_isolated, PS.acceptor_exact): for every Par/Seq tree, every declaration of its leaves and every interleaving",
+        "statement": "PS.run_once, PS.seq_order(_nested) / PS.seqOf_order, PS.par_may_overlap, PS.reads_union / PS.writes_union (+ PS.leaf_reports_own_accessor / PS.node_reports_own_accessors: the accessor the leaf system hands out, not its accessor type's default), PS.setup_reaches / PS.every_setup_reaches (every call of any history of setup calls, through either entry point, on any world), PS.with_check_iff / PS.with_check_own_accessors / PS.parOf_spec (+ PS.built_isolated, PS.acceptor_exact): for every Par/Seq tree, every declaration of its leaves and every interleaving",
         "engines": [{"engine": "parseq", "args": {},
-                     "quick": {"cases": 700, "runs": 3, "reps": 2, "max-leaves": 20, "hold-us": 150},
-                     "thorough": {"cases": 12000, "runs": 4, "reps": 3, "max-leaves": 40, "hold-us": 250, "small-scope": True},
-                     "search": {"cases": 20000, "runs": 3, "reps": 2, "small-scope": True}}],
+                     "quick": {"cases": 700, "runs": 3, "reps": 2, "max-leaves": 20, "hold-us": 150, "max-setups": 4},
+                     "thorough": {"cases": 12000, "runs": 4, "reps": 2, "max-leaves": 40, "hold-us": 250, "max-setups": 5, "small-scope": True},
+                     "search": {"cases": 20000, "runs": 3, "reps": 2, "max-setups": 4, "small-scope": True}}],
         "aspects": ["*"],
-        "theorems_hint": ["PS.run_once", "PS.seq_order", "PS.seq_order_nested", "PS.seqOf_order", "PS.par_may_overlap", "PS.reads_union", "PS.writes_union", "PS.setup_reaches", "PS.with_check_iff", "PS.parOf_spec", "PS.built_isolated", "PS.build_is_recursive", "PS.acceptor_exact"],
+        "theorems_hint": ["PS.run_once", "PS.seq_order", "PS.seq_order_nested", "PS.seqOf_order", "PS.par_may_overlap", "PS.reads_union", "PS.writes_union", "PS.leaf_reports_own_accessor", "PS.node_reports_own_accessors", "PS.setup_reaches", "PS.every_setup_reaches", "PS.with_check_iff", "PS.with_check_own_accessors", "PS.parOf_spec", "PS.built_isolated", "PS.build_is_recursive", "PS.acceptor_exact"],
         "assumptions": [
             "rayon 1.12: join / ThreadPool::join / install run both closures to completion before returning, on any worker (modelled as all shuffles of the two sides, not verified)",
             CELL,
             "leaf systems are told apart by pairwise distinct tags (the harness numbers them); `Nil` contributes no observable event",
             "debug assertions are on in the build under test (the harness's dev profile sets debug-assertions = true, also for the shred dependency)",
+            "leaves: System::accessor overridden with a dynamic accessor whose type has no default / has an empty default, or static Read / Write / Option<Read> data with nothing (or only System::setup) overridden; a leaf with neither an own accessor nor a default panics in System::accessor and is excluded (PS.Usable). What a leaf's setup creates (DefaultProvider of Read / Write; the harness's dynamic data insert what they declare) is user code and a parameter of the model",
         ],
     },
     "C17": {
@@ -260,7 +261,7 @@ TEXT = {
     "C13": "Proof: setup / dispose reach exactly the systems of the layout, batches expanded, at any depth (dispose = setup after repair D2); setup never changes an existing resource, creates exactly the default-provided ones, is idempotent. Tied by hook counters, world diffs on pre-populated worlds, and the setup oracle over every system-data type.",
     "C14": "Proof about every log the driver's panic-aware acceptor accepts: a panic is reported iff a system was unwound, nothing ordered after an unwound system starts, nothing starts twice, every opened window is closed; the acceptor accepts every declaratively legal execution. Tied by injecting a panic into every placed system in turn (run / fetch), payload, borrow probe, clean re-dispatch. PARTIAL: rayon's re-raise and unwinding are assumed; rayon may leave out unstarted siblings (modelled).",
     "C15": "Proof over all interleavings of caller and background-job steps of the async state machine: accessor quiescence, running() truthfulness, no overtaking, thread-local systems only inside wait on the caller, each dispatch once; accepted logs are runs. Tied by gated real runs. PARTIAL: mpsc and rayon spawn are modelled.",
-    "C16": "Proof: every leaf once, seq order, par may overlap, reads/writes = concatenation over leaves, setup reaches leaves, Par::with's debug check fails iff a leaf-level conflict exists; trees that pass the checks are isolated. Tied by run-time assembled real Par/Seq trees (depth <= 5, fan-out <= 6), traces, debug-assertion panics.",
+    "C16": "Proof: every leaf once, seq order, par may overlap, reads/writes = concatenation over the leaves' own accessors (not their accessor types' defaults), every setup call of any history reaches every leaf and only extends the world, Par::with's debug check fails iff a leaf-level conflict exists; trees that pass the checks are isolated. Tied by run-time assembled real Par/Seq trees (depth <= 5, fan-out <= 6; explicit calls and par!/seq!), leaves of four accessor flavours, reads()/writes() of every node, scripts of setup calls (same / fresh world, after removal, both entry points) each followed by dispatches, pools held by reference and by Arc, traces, debug-assertion panics.",
     "C17": "Proof: the table invariant under any register history, get/get_mut specification, one next step and whole iteration (first-registration order, once each, exactly the registered present types, shared vs exclusive borrows), bad casts panic at every use whatever the implementor (registration checks nothing), a returned reference always has the resource's address. Tied by forty implementing types (zero-sized / sized / Drop / aligned / generic, each with the lawful CastFrom and wrong ones of six shapes), tables for a plain trait and for a trait with supertraits, all presence subsets, exhaustive small scopes; both iterators are also driven through the provided Iterator methods (nth, skip, step_by, take, last, count, fold, for_each, collect, size_hint, zip, by_ref then next) and must give what the next-sequence gives.",
     "C18": "Proof: add panics iff a dependency is unknown (first such) or a non-empty name is taken; every other registration succeeds; group size <= 4 < 5, running times <= 20, targets in bounds, for every registration sequence and every builder state reachable through accepted and rejected calls. Tied by a malformed stream at every position and deep funnels.",
     "C19": "Proof: relabelled resources, permuted / duplicated declared lists, renamed systems, renumbered ids and re-tagged systems give identical tables for every registration sequence. Tied by transformed twins, a second process, and case-by-case comparison of the builds with and without the parallel feature.",
